@@ -82,7 +82,7 @@ struct P_C18
     {
         Case c;
         c.g.tmpl = 0;
-        c.g.g = gg::gen_grammar(ch, ch.chance(1, 3) ? gg::RECOVERY : gg::CONFLICT_FREE, c.g.strategy, tpl::t36_slots());
+        c.g.g = gg::gen_grammar(ch, ch.chance(1, 3) ? gg::RECOVERY : ch.chance(1, 3) ? gg::PRECEDENCE : gg::CONFLICT_FREE, c.g.strategy, tpl::t36_slots());
         // script: each grammar terminal gets 1-2 trigger bytes with a length rule; a few extra bytes map to terms as well; some bytes stay unmapped
         static const char pool[] = "abcdefghxyz0123456789+-*/<>=!\n \t";
         std::set<int> used;
@@ -172,7 +172,7 @@ struct P_C18
         if (g.rules.empty()) return Verdict::discard("empty-grammar");
         Prepared pr;
         if (!R::prepare(g, pr)) return Verdict::discard(pr.why);
-        if (!pr.table.conflict_free()) return Verdict::discard("not-LR1");
+        if (pr.table.has_rr) return Verdict::discard("not-LR1(rr)");     // shift/reduce conflicts are resolved by the custom terms' precedence and associativity, as for any other term kind
         try { R::inject(g); }
         catch (const std::exception& e) { vj::Value d = vj::Value::object(); d.set("exception", e.what()); return Verdict::fail(std::string("table construction threw: ") + e.what(), d); }
         cl::Script script = script_of(c);
@@ -184,7 +184,8 @@ struct P_C18
             CLex L = ref_lex_custom(script, in.text, in.skip_ws, in.skip_nl);
             std::vector<ref::Token> toks; for (auto& t : L.toks) toks.push_back(t.t);
             ref::RunResult rr = ref::run_lr(pr.table, toks, false, L.error);
-            if (rr.looped) continue;
+            if (rr.looped || rr.hit_rr) continue;
+            if (rr.hit_sr) case_labels.push_back("conflict-resolved-by-custom-term-precedence");
             std::vector<cl::LexCall> calls; cl::g_calls = &calls;
             Obs o = R::observe(in, false, 1, 0);
             cl::g_calls = nullptr;
